@@ -616,7 +616,7 @@ func init() {
 		Explain: "Per-method preservation conditions of the TailBitmap invariant (DESIGN.md 5/C15): single writer of Offset; Compact advances Offset by 64 per dropped all-ones word under len>0; Get/Get1/Set split exactly at idx < Offset with the right implicit value; rebased bit index idx-Offset with paired >>6 / &63; Set grows before storing and triggers Compact when the first word was touched. Induction over call histories then gives the property; the induction itself is the stated argument, each step is decided on all paths.",
 		NotDec:  []string{"the history-level induction is an argument over the decided per-method conditions, not a machine-checked proof", "Bit table contents"},
 		Trusted: []string{"go/ssa construction", "field Offset/Words are modified only through the methods (exported fields could be written by clients)"},
-		Quick:   []Config{cfgDefault}, Thorough: []Config{cfgDefault, cfg386},
+		Quick:   []Config{cfgDefault, cfg386}, Thorough: []Config{cfgDefault, cfg386},
 		Run: runC15,
 	})
 }
